@@ -93,6 +93,44 @@ CLAIMS = {
         "data; they are exercised (clone at random points, original disturbed afterwards), not proved. Indicator-level over/init_fn "
         "are covered by C11's suite. Known finding: Past::peek.",
    ref="DESIGN.md §5 C09"),
+
+ "C08": dict(cat="proof", tech="Lean 4 proofs about the from-scratch specs (prefix invariance, fixed points) composed with the model=spec theorems + constant-input / leading-copies differential run on every method and indicator",
+   text="Theorems (every length, value, stream): extra leading copies of the construction value leave the window and hence every "
+        "sliding-window spec unchanged; the exponential recurrences likewise; on constant input mean-type specs return v, the "
+        "windowed sum n*v, EMA/DMA/TMA v, DEMA/TEMA reproduce the constant exactly, Highest/Lowest return the value itself, "
+        "crossings stay silent. The real code: every method type and every indicator (several configurations, flat/ranged/"
+        "zero-volume candles) is fed 700-2000 copies of its first input and streams with extra leading copies.",
+   note=COMMON_NOTE + NUM_NOTE + "PARTIAL: the theorems transfer to the model only where a model=spec theorem exists (C02-C04); "
+        "indicators are covered by the run, not by theorems. Known findings: HullMovingAverage pivot noise, TrendStrengthIndex start.",
+   ref="DESIGN.md §5 C08"),
+ "C10": dict(cat="proof", tech="Lean 4 totality proofs of the constructors over the whole PeriodType domain + exhaustive enumeration of the parameter domain on the real code (debug and release builds)",
+   text="Theorems for every maximum P>=2 and EVERY parameter value 0..=P (every pair for two-parameter methods): the constructors of "
+        "20 single-length methods, TSI, both reversal detectors and Conv return Ok or Err, never a panic or overflow, and Err on the "
+        "documented too-small lengths and on PeriodType::MAX. On the real code all 256 lengths of all 35 methods (pairs for "
+        "two-parameter ones) must give the model's Ok/Err/kind, in debug and release builds; every indicator parameter is swept "
+        "(all 256 values, all MA kinds, NaN/inf/negative numerics) and accepted instances are driven with valid candles.",
+   note=COMMON_NOTE + "PARTIAL: indicator init()/validate() are enumerated on the real code, not modelled; 'accepted instances never panic' "
+        "is a theorem only for the methods with a full run theorem (C02-C04, C14, C17). Known finding: CoppockCurve on zero volume.",
+   ref="DESIGN.md §5 C10"),
+ "C11": dict(cat="proof", tech="translator (source -> Lean table, regenerated every run) + decide over the table + Rust-vs-Rust interface differential run",
+   text="tools/extract.py regenerates a Lean table of all indicators from the source on every run (public fields, set() arms with the "
+        "field each assigns, size(), arities given to IndicatorResult::new, Default). Theorems over that table: every row is in the "
+        "translatable shape, the set() keys are exactly the public fields and each arm assigns the field of its own name, size() "
+        "equals the result arities and fits the fixed-size result, names are distinct. The running code is checked for name, default "
+        "validity and init, every setter with valid/boundary/unparsable texts and unknown names (exact JSON diff), result shape at "
+        "every step, and static vs Box<dyn> equivalence.",
+   note=COMMON_NOTE + "Trusted: the translator (cross-checked against values the code returns). name()==NAME, the Dyn blanket impls and "
+        "default().init() are runtime facts compared Rust-vs-Rust.",
+   ref="DESIGN.md §5 C11"),
+ "C13": dict(cat="proof", tech="Lean 4 round-trip / rejection proofs for the hand-written serde impls + translator-checked serde surface + snapshot differential run",
+   text="Theorems: a reachable Window of any capacity (incl. empty) deserializes from its serialized form to the very same window; "
+        "malformed data is rejected and everything accepted is a consistent window; the slice SMM rebuilds is a sorted permutation of "
+        "the window; the translator-generated surface table proves Window and SMM are the only hand-written impls and no field is "
+        "skipped. Every method type and indicator is snapshotted after each of the first steps (every ring phase), round-tripped "
+        "through JSON and compared bit-for-bit with the original on a continuation; adversarial Window JSON.",
+   note=COMMON_NOTE + "PARTIAL: derived impls rely on serde_derive and serde_json float round-trip (trusted, exercised). JSON cannot carry "
+        "NaN/inf: such states are skipped and counted.",
+   ref="DESIGN.md §5 C13"),
 }
 
 checks = []
